@@ -5,7 +5,7 @@
 set -u
 export GOFLAGS=-mod=mod GOPROXY=off GOSUMDB=off GOTOOLCHAIN=local
 REPO=${VERIF_REPO:-/repo}
-V=/verif
+V=$(cd "$(dirname "$0")/.." && pwd)
 GO=go1.26.8
 mkdir -p $V/build
 exec 9>$V/build/.lock
